@@ -282,6 +282,23 @@ class SBytes:
                 return i
         raise ValueError("subsection not found")
 
+    def count(self, sub, start: int = 0, end: Optional[int] = None):
+        sub_items = items_of(sub) if not isinstance(sub, int) else [sub]
+        if len(sub_items) != 1 or not isinstance(sub_items[0], int):
+            raise Unsupported("SBytes.count with a multi-byte or symbolic needle")
+        needle = sub_items[0]
+        n = len(self.items) if end is None else min(end, len(self.items))
+        fixed, terms = 0, []
+        for i in range(start, n):
+            r = item_eq(self.items[i], needle)
+            if r is True:
+                fixed += 1
+            elif r is not False:
+                terms.append(z3.If(r.e if isinstance(r, E.SBool) else r, z3.IntVal(1), z3.IntVal(0)))
+        if not terms:
+            return fixed
+        return E.mkint(z3.Sum([z3.IntVal(fixed)] + terms))
+
     def find(self, sub, start: int = 0, end: Optional[int] = None) -> int:
         try:
             return self.index(sub, start, end)
